@@ -127,7 +127,7 @@ def check(ctx):
                 'IrProtocolBase.decode vs the Lean model on valid, window-edge-perturbed, structurally damaged and garbage frames of every regular protocol; '
                 'search: all protocols, every per-parameter boundary value crossed with random others + random (exhaustive when the space is <= 4096, thorough), '
                 'oracle = encode, feed the first frame group to a fresh decoder, compare every parameter. distinct = distinct (protocol, parameter set)')
-    tabs, ok = engine_prove.prove(ctx, MODULES, with_wrappers=True)
+    tabs, ok = engine_prove.prove(ctx, MODULES, with_wrappers=True, wrap_kinds=('c01',))
     import fingerprint
     changed_p, changed_e = fingerprint.changed()
     focus = engine_prove.failed_protocols(ctx) | changed_p
